@@ -1,5 +1,6 @@
 # -*- coding: utf-8 -*-
 
+import copy
 from typing import Dict, Optional, TypeVar
 
 from .._utils import deprecated, map_and_filter
@@ -23,6 +24,7 @@ from .types import (
 
 
 TType = TypeVar("TType", bound=type)
+TNamed = TypeVar("TNamed")
 
 
 class SchemaVisitor(object):
@@ -93,14 +95,7 @@ class SchemaVisitor(object):
     def on_object(self, object_type: ObjectType) -> Optional[ObjectType]:
         updated_fields = map_and_filter(self.on_field, object_type.fields)
         if updated_fields != object_type.fields:
-            return ObjectType(
-                object_type.name,
-                updated_fields,
-                interfaces=object_type.interfaces,
-                default_resolver=object_type.default_resolver,
-                description=object_type.description,
-                nodes=object_type.nodes,
-            )
+            return _with_members(object_type, fields=updated_fields)
         return object_type
 
     def on_field(self, field: Field) -> Optional[Field]:
@@ -127,13 +122,7 @@ class SchemaVisitor(object):
     ) -> Optional[InterfaceType]:
         updated_fields = map_and_filter(self.on_field, interface_type.fields)
         if updated_fields != interface_type.fields:
-            return InterfaceType(
-                interface_type.name,
-                updated_fields,
-                resolve_type=interface_type.resolve_type,
-                description=interface_type.description,
-                nodes=interface_type.nodes,
-            )
+            return _with_members(interface_type, fields=updated_fields)
         return interface_type
 
     def on_union(self, union_type: UnionType) -> Optional[UnionType]:
@@ -142,12 +131,7 @@ class SchemaVisitor(object):
     def on_enum(self, enum_type: EnumType) -> Optional[EnumType]:
         updated_values = map_and_filter(self.on_enum_value, enum_type.values)
         if updated_values != enum_type.values:
-            return EnumType(
-                enum_type.name,
-                values=updated_values,
-                description=enum_type.description,
-                nodes=enum_type.nodes,
-            )
+            return _with_members(enum_type, values=updated_values)
         return enum_type
 
     def on_enum_value(self, enum_value: EnumValue) -> Optional[EnumValue]:
@@ -160,12 +144,7 @@ class SchemaVisitor(object):
             self.on_input_field, input_object_type.fields
         )
         if updated_fields != input_object_type.fields:
-            return InputObjectType(
-                input_object_type.name,
-                updated_fields,
-                description=input_object_type.description,
-                nodes=input_object_type.nodes,
-            )
+            return _with_members(input_object_type, fields=updated_fields)
         return input_object_type
 
     def on_input_field(self, field: InputField) -> Optional[InputField]:
@@ -194,3 +173,17 @@ class SchemaVisitor(object):
     on_argument_definition = deprecated(
         "This method has been deprecated, use on_argument instead."
     )(on_argument)
+
+
+
+def _with_members(type_: TNamed, fields=None, values=None) -> TNamed:
+    # A new type object with other members. It is a copy of the original
+    # rather than a plain ObjectType / InterfaceType / EnumType /
+    # InputObjectType built from its attributes: an instance of an application
+    # defined subclass keeps its class, and whatever behaviour it overrides.
+    updated = copy.copy(type_)
+    if values is not None:
+        updated._set_values(values)  # type: ignore
+    else:
+        updated.fields = fields  # type: ignore
+    return updated
